@@ -94,6 +94,27 @@ Proof. exact bottom_inside. Qed.
 Theorem C09_region_inside : forall rows vp tf r, 0 < rows -> region_for rows vp tf (has_double_height_char tf) = Some r ->
   first_row vp + rows_occupied tf - 1 <= rows -> inside_safe_area (rect_of r).
 Proof. exact region_inside. Qed.
+(* ... and the row count the reader works with is at least 1 for EVERY GSI block and EVERY configuration (since the repair
+   of the row count below 1: MNR 00, max_row_count 0 or negative give the default grid), so the region of a subtitle
+   always exists and lies inside the safe area when the rows fit - no hypothesis on the configuration is left *)
+Theorem C09_init_rows : forall g cfg f, init g cfg = inl f -> 1 <= f_max_rows f.
+Proof. exact init_rows. Qed.
+Theorem C09_reader_region_exists : forall g cfg f vp tf dh, init g cfg = inl f -> exists r, region_for (f_max_rows f) vp tf dh = Some r.
+Proof. exact reader_region_exists. Qed.
+Theorem C09_reader_region_inside : forall g cfg f vp tf r, init g cfg = inl f ->
+  region_for (f_max_rows f) vp tf (has_double_height_char tf) = Some r ->
+  first_row vp + rows_occupied tf - 1 <= f_max_rows f -> inside_safe_area (rect_of r).
+Proof. exact reader_region_inside. Qed.
+
+(* ... and at document level: every region of the document the reader returns, whatever the file and the configuration,
+   is S's top-anchored region of a first row or bottom-anchored region of a last row on a grid of at least one row *)
+Theorem C09_reader_regions : forall file cfg d, reader_model file cfg = Ok d ->
+  exists rows, 1 <= rows /\
+    Forall (fun r => exists vp tf,
+              (first_row vp < rows / 2 /\ rect_equiv (rect_of r) (top_anchored rows (first_row vp))) \/
+              (rows / 2 <= first_row vp /\ rect_equiv (rect_of r) (bottom_anchored rows (first_row vp + rows_occupied tf - 1))))
+           (d_regions d).
+Proof. exact reader_regions_spec. Qed.
 
 (* ---- subtitle numbers -------------------------------------------------------------------------------------------- *)
 (* subtitle numbers are compared by value (repaired by 434048d; formerly finding sn-identity): a block opens a new
@@ -145,17 +166,26 @@ Theorem C09_cumulative : forall f s t tf sgn p,
                                                            (if t_cs t =? 2 then [LBr] else []))])) /\
     st_divs s' = st_divs s /\ st_regions s' = st_regions s.
 Proof. exact cumulative_member. Qed.
-(* no block makes the reader fail for want of a paragraph (since the repair of cumulative-before-first), and a whole
-   file fails only on a short GSI/TTI block, an unparsable configured start time code or a row count of zero *)
+(* no block makes the reader fail for want of a paragraph (since the repair of cumulative-before-first); for any data
+   file parameters the only failure of a block is the division by a row count of zero *)
 Theorem C09_no_attribute_error : forall f s t, process_tti f s t <> inr EAttribute.
 Proof. exact process_no_attribute_error. Qed.
-Theorem C09_reader_errors : forall file cfg e, reader_model file cfg = Err e -> e = EStruct \/ e = EValue \/ e = EZeroDiv.
+Theorem C09_block_errors : forall f s t e, process_tti f s t = inr e -> e = EZeroDiv /\ f_max_rows f = 0.
+Proof. exact process_errors. Qed.
+(* ... and a whole file, whatever its bytes and the configuration, fails only on a short GSI/TTI block or an unparsable
+   configured start time code: the division by zero is gone (since the repair of the row count below 1; formerly
+   C09_reader_zero_div "needs a row count of zero", C18's stl-zero-row-count) *)
+Theorem C09_reader_errors : forall file cfg e, reader_model file cfg = Err e -> e = EStruct \/ e = EValue.
 Proof. exact reader_errors. Qed.
-
-(* ... and the division by zero needs a row count of zero (C18's stl-zero-row-count) *)
-Theorem C09_reader_zero_div : forall file cfg, reader_model file cfg = Err EZeroDiv ->
-  exists f, init (unpack_gsi (firstn 1024 file)) cfg = inl f /\ f_max_rows f = 0.
-Proof. exact reader_zero_div. Qed.
+Theorem C09_reader_no_zero_div : forall file cfg, reader_model file cfg <> Err EZeroDiv.
+Proof. exact reader_no_zero_div. Qed.
+(* a file of 1024 + 128 k bytes is read into a document under every configuration whose start time code (if any)
+   SmpteTimeCode.parse accepts - which is every configuration that STLReaderConfiguration.parse lets through
+   (C09_config_start_parses) *)
+Theorem C09_reader_total : forall file cfg k, length file = (1024 + 128 * k)%nat ->
+  (forall t, cf_start cfg = StStr t -> forall fps, parse_tc t fps <> None) ->
+  exists d, reader_model file cfg = Ok d.
+Proof. exact reader_total. Qed.
 
 (* ---- configuration decoders (stl/config.py) -------------------------------------------------------------------------- *)
 (* whatever _decode_start_tc lets through, SmpteTimeCode.parse accepts (no ValueError from DataFile.__init__ after
@@ -184,7 +214,8 @@ Theorem C09_blocks : forall f r start cct tele rows bl subs ps,
   exists s, fold_blocks f state0 (map tti_of bl) = inl s /\
             Forall2 (Forall2 (para_matches rows (st_regions s))) (map snd (commit s)) (by_group ps).
 Proof. exact blocks_presentation. Qed.
-(* every file of bytes in the specification's domain, every reader configuration, outside finding df-23976: the reader
+(* every file of bytes in the specification's domain, every reader configuration (any max_row_count: S's grid for a
+   count below 1 is the default grid, and so is the repaired reader's), outside finding df-23976: the reader
    returns a document whose divisions are S's presentation of the file.
    Full statement (false at 24000/1001 beyond the first minute, Findings/C09.v): the same without the trigger hypothesis *)
 Theorem C09_file_partial : forall file cfg sc groups rows,
@@ -233,6 +264,19 @@ Example C09_example_repaired :
   map piece_of_leaf (tf_model (fun x => x) true [65; 138; 138; 66]) = tf_spec (fun x => x) true [65; 138; 138; 66] /\
   before_8f [143; 65; 66] = [].
 Proof. vm_compute. repeat split; reflexivity. Qed.
+(* MNR 00, max_row_count 0 and a negative max_row_count (open subtitles) used to raise ZeroDivisionError / place the
+   subtitle on a negative grid: they are in S's domain now (23 rows), read into one paragraph, and the hypotheses of
+   C09_reader_total hold of them *)
+Example C09_example_zero_rows :
+  let file := put 11 [48] (put 253 [48; 48] witness_gsi) ++ witness_tti 0 1 2 20 0 0 [65] in
+  paragraphs_of (reader_model file (mkConfig StNone MrMNR false false None)) = 1 /\
+  paragraphs_of (reader_model file (mkConfig StNone (MrInt 0) false false None)) = 1 /\
+  paragraphs_of (reader_model file (mkConfig StNone (MrInt (-3)) false false None)) = 1 /\
+  (exists groups, presentation file StartNone RowsMNR = Some (groups, 23)) /\
+  (exists groups, presentation file StartNone (RowsInt 0) = Some (groups, 23)) /\
+  (exists groups, presentation file StartNone (RowsInt (-3)) = Some (groups, 23)) /\
+  length file = (1024 + 128 * 1)%nat.
+Proof. cbv zeta. repeat split; try (eexists; vm_compute; reflexivity); vm_compute; reflexivity. Qed.
 Example C09_example_region : region_for 23 20 [65; 138; 66] false = Some (mkRegion (qz 5) (qz 10) (qz 90) (qz 21 / qz 23 * qz 80)%Q true).
 Proof. reflexivity. Qed.
 
@@ -244,10 +288,11 @@ Print Assumptions C09_times_24.  Print Assumptions C09_times_25.  Print Assumpti
 Print Assumptions C09_offset_24.  Print Assumptions C09_offset_25.  Print Assumptions C09_offset_50.  Print Assumptions C09_offset_2997.
 Print Assumptions C09_offset_23976_partial.  Print Assumptions C09_rates_partial.
 Print Assumptions C09_rows.  Print Assumptions C09_region.  Print Assumptions C09_region_top_inside.  Print Assumptions C09_region_bottom_inside.
-Print Assumptions C09_region_inside.
+Print Assumptions C09_region_inside.  Print Assumptions C09_init_rows.  Print Assumptions C09_reader_region_exists.
+Print Assumptions C09_reader_region_inside.  Print Assumptions C09_reader_regions.
 Print Assumptions C09_sn_value.
 Print Assumptions C09_grouping.  Print Assumptions C09_subtitle.  Print Assumptions C09_early_dropped.  Print Assumptions C09_cumulative.
-Print Assumptions C09_no_attribute_error.  Print Assumptions C09_reader_errors.
-Print Assumptions C09_reader_zero_div.
+Print Assumptions C09_no_attribute_error.  Print Assumptions C09_block_errors.  Print Assumptions C09_reader_errors.
+Print Assumptions C09_reader_no_zero_div.  Print Assumptions C09_reader_total.
 Print Assumptions C09_config_start_parses.  Print Assumptions C09_config_start_label.  Print Assumptions C09_config_start_tcp.
 Print Assumptions C09_blocks.  Print Assumptions C09_file_partial.
